@@ -23,6 +23,10 @@ type racClause struct {
 // buildReplayTest generates an in-package test that runs the real function on candidate inputs and evaluates its contract
 // at run time: case 0 is the input rebuilt from the solver's model (when it can be rebuilt), the other cases come from the
 // input pools of the package (bounded search). The first case on which an executable clause of the contract fails is reported.
+// knownRacClauses: rac_ensures clause texts whose failure is a recorded known finding (known_findings.txt, field clause=...).
+// A failing known clause is reported as GOVC-KNOWN once and the run continues, so any other violation is still found.
+var knownRacClauses = map[string]bool{}
+
 func buildReplayTest(p *Program, s *Session, o *Obligation) (src string, notes []string, err error) {
 	fn := s.Fn
 	c := s.C
@@ -211,10 +215,16 @@ func buildReplayTest(p *Program, s *Session, o *Obligation) (src string, notes [
 		if rc.Err != "" {
 			continue
 		}
-		sb.WriteString(fmt.Sprintf("\tif v, ok := govcTry(func() bool { return %s }); ok && !v {\n\t\treturn %q\n\t}\n", rc.Code, fmt.Sprintf("%s[%d] is false: %s", map[string]string{"post": "ensures", "rac_ensures": "rac_ensures"}[rc.Kind], rc.Idx, rc.Text)))
+		msg := fmt.Sprintf("%s[%d] is false: %s", map[string]string{"post": "ensures", "rac_ensures": "rac_ensures"}[rc.Kind], rc.Idx, rc.Text)
+		if rc.Kind == "rac_ensures" && knownRacClauses[c.Key()+"|"+strings.ReplaceAll(rc.Text, " ", "")] {
+			sb.WriteString(fmt.Sprintf("\tif v, ok := govcTry(func() bool { return %s }); ok && !v {\n\t\tif !govcKnownSeen[%q] {\n\t\t\tgovcKnownSeen[%q] = true\n\t\t\tfmt.Println(\"GOVC-KNOWN\", %q)\n\t\t}\n\t}\n", rc.Code, rc.Text, rc.Text, strings.ReplaceAll(rc.Text, " ", "")))
+			continue
+		}
+		sb.WriteString(fmt.Sprintf("\tif v, ok := govcTry(func() bool { return %s }); ok && !v {\n\t\treturn %q\n\t}\n", rc.Code, msg))
 	}
 	sb.WriteString("\treturn \"\"\n}\n\n")
 	// ---- the driver
+	sb.WriteString("var govcKnownSeen = map[string]bool{}\n\n")
 	sb.WriteString("func TestGovcReplay(t *testing.T) {\n\tfmt.Println(\"GOVC-BEGIN\")\n\tvar cases [][]interface{}\n")
 	if modelCase != "" {
 		sb.WriteString("\tcases = append(cases, " + modelCase + ")\n")
@@ -426,7 +436,7 @@ func cmdReplay(args []string) int {
 		}
 	}
 	for name, d := range contractDirs {
-		if _, err := os.Stat(filepath.Join(repo, d, "zz_contracts_verif.go")); err != nil {
+		if _, err := os.Stat(filepath.Join(repo, d, "zz_contracts_verif.go")); err != nil || os.Getenv("GOVC_PREFER_MIRROR") != "" {
 			p.Overlaid = append(p.Overlaid, filepath.Join(repo, d, "zz_contracts_verif.go"))
 		}
 		_ = name
